@@ -21,6 +21,13 @@ def R(mod, name, cfg="rc"):
 
 
 PROPS = {
+    "C15": dict(
+        rules=[R("strings", "rule_unsafe_bounds"), R("strings", "rule_str_option")],
+        clause="A string value can only be built from bounds validated against its data, so slicing cannot yield malformed "
+               "text (R-UNSAFE-BOUNDS); a slice that would cut through a character becomes an error, never an unwrap "
+               "(R-STR-OPTION). Not decided: results of split/trim/replace/format, grapheme segmentation, width arithmetic.",
+        technique="construction-site census of the get_unchecked-backed type with dominating-validation analysis over MIR",
+    ),
     "C19": dict(
         rules=[R("memory", "rule_build_diff", "arc"), R("memory", "rule_sibling_api", "arc"),
                R("memory", "rule_atomic", "arc"), R("borrow", "rule_borrow_arc", "arc")],
@@ -194,5 +201,4 @@ NOT_APPLICABLE = {
            "bytecode; no clause is visible in the shape of the Rust code (DESIGN.md section 5)",
     "C09": "every clause constrains numeric cursor values computed from the input's characters; no structural "
            "necessary condition exists (DESIGN.md section 5)",
-    "C15": "rules not built yet",
 }
